@@ -41,6 +41,7 @@ func init() {
 			{Name: "receivers", Run: runReceivers},
 			{Name: "argconv", Run: runArgConv},
 			{Name: "repr", Run: runRepr},
+			{Name: "order", Run: runOrder},
 			{Name: "len4", Run: runLen4, ThoroughOnly: true},
 		},
 		Assumptions: []string{
